@@ -267,6 +267,7 @@ class SimWorld:
         self.on_send = None       # optional hook(link, pk)
         self.reply_filter = None  # optional (link, request, replies) -> [(reply, delay|None, guard|None)]
         self.suppressed = 0
+        self.fault_context = {}
         self.on_deliver = None
 
 
@@ -311,6 +312,12 @@ def _make_simlink_class():
                     self._fault_event.wait()
                     if not self.closed and not w.fault_fired and w.net.fault:
                         w.fault_fired = True
+                        sch = dsched.Sched.active
+                        busy = False
+                        for lt in sch.threads:
+                            if lt.name.startswith('_IncomingPacketHandler') and lt.state != dsched.DONE:
+                                busy = not (lt.state == dsched.BLOCKED and (lt.waiting_on is self.wakeup or lt.idle))
+                        w.fault_context = {'dispatcher_busy': busy, 'time': sch.now}
                         self.err_cb('injected link error (driver thread)')
                 self._fault_thread = threading.Thread(target=driver_thread, name='simdriver')
                 self._fault_thread.daemon = True
@@ -374,6 +381,9 @@ def _make_simlink_class():
             deadline = s.now + (wait if wait and wait > 0 else 0)
             while True:
                 if self.closed:
+                    # like a real driver: a closed link has nothing to deliver, the timed wait still elapses
+                    if wait and wait > 0 and s.now < deadline:
+                        s.block(None, deadline - s.now, idle=True)
                     return None
                 if self.pending and self.pending[0][0] <= s.now:
                     due, _, (port, ch, data), guard = heapq.heappop(self.pending)
